@@ -13,6 +13,7 @@ import (
 func stdB64(s string) string { return base64.StdEncoding.EncodeToString([]byte(s)) }
 
 func runExtra(r *common.Rand) {
+	runCodec(r)
 	nc := run.Scale(300, 20000)
 	for i := 0; i < nc; i++ {
 		runConc(genConc(r))
@@ -41,6 +42,9 @@ func fixedCrashes() []crashCase {
 }
 
 func replayExtra(c map[string]string) {
+	if replayCodec(c) {
+		return
+	}
 	switch c["kind"] {
 	case "S":
 		cc := concCase{Kind: "S"}
